@@ -494,6 +494,10 @@ func (fr *Frame) loopEnv(st, old *State, l *loopInfo, phiVal func(*ssa.Phi) Term
 					if _, isArr := types.Unalias(et).Underlying().(*types.Array); !isArr {
 						if _, dup := env.names[al.Comment]; !dup {
 							env.names[al.Comment] = cval{vc.loadT(st, t, et), vc.ctOf(et)}
+							if env.addrs == nil {
+								env.addrs = map[string]cval{}
+							}
+							env.addrs[al.Comment] = cval{t, vc.ctOf(et)}
 						}
 					}
 				}
